@@ -12,10 +12,10 @@ import (
 
 type BGr struct {
 	n   int
-	adj []uint32
+	adj []uint64
 }
 
-func newBGr(n int) *BGr { return &BGr{n: n, adj: make([]uint32, n)} }
+func newBGr(n int) *BGr { return &BGr{n: n, adj: make([]uint64, n)} }
 
 func (g *BGr) add(i, j int) {
 	if i != j {
@@ -101,9 +101,9 @@ func bgrFromEdges(n int, e [][2]int) *BGr {
 }
 
 func (g *BGr) key() string {
-	b := make([]byte, 0, g.n*4)
+	b := make([]byte, 0, g.n*8)
 	for _, r := range g.adj {
-		b = append(b, byte(r), byte(r>>8), byte(r>>16), byte(r>>24))
+		b = append(b, byte(r), byte(r>>8), byte(r>>16), byte(r>>24), byte(r>>32), byte(r>>40), byte(r>>48), byte(r>>56))
 	}
 	return string(b)
 }
@@ -331,6 +331,123 @@ func c01Hard(c *Ctx) {
 	}
 	if a, b := canonOfName["2K4"], canonOfName["Q4"]; a != "" && b != "" && len(a) == len(b) && a == b {
 		c.Fail(&Failure{Class: "canonical/non-isomorphic-graphs-same-canonical-form", What: "2K4 and Q4", Kind: "canon-pair"})
+	}
+}
+
+// bigGraphs: graphs with more than 20 vertices (cells larger than the insertion-sort block of the stable
+// sort in the refinement, so that its merge phase runs), irregular, built deterministically.
+func bigGraphs() map[string]*BGr {
+	m := map[string]*BGr{}
+	cat := newBGr(30) // caterpillar: spine 0..9, vertex i has (i mod 3) leaves
+	next := 10
+	for i := 0; i < 10; i++ {
+		if i > 0 {
+			cat.add(i-1, i)
+		}
+		for l := 0; l < i%3+1 && next < 30; l++ {
+			cat.add(i, next)
+			next++
+		}
+	}
+	m["caterpillar30"] = cat
+	bt := newBGr(31)
+	for i := 1; i < 31; i++ {
+		bt.add(i, (i-1)/2)
+	}
+	m["binary-tree31"] = bt
+	m["paths-3-4-5-6-7"] = pathB(3).union(pathB(4)).union(pathB(5)).union(pathB(6)).union(pathB(7))
+	lcg := newBGr(26)
+	x := uint64(12345)
+	for i := 0; i < 26; i++ {
+		for j := 0; j < i; j++ {
+			x = x*6364136223846793005 + 1442695040888963407
+			if (x>>33)%7 == 0 {
+				lcg.add(i, j)
+			}
+		}
+	}
+	m["lcg26"] = lcg
+	kb := newBGr(23)
+	for i := 0; i < 10; i++ {
+		for j := 10; j < 23; j++ {
+			kb.add(i, j)
+		}
+	}
+	kb.del(0, 10)
+	kb.del(1, 11)
+	kb.del(1, 12)
+	m["K10,13-minus-3"] = kb
+	wh := newBGr(24)
+	for i := 0; i < 20; i++ {
+		wh.add(i, (i+1)%20)
+		if i%2 == 0 {
+			wh.add(i, 20)
+		}
+	}
+	wh.add(20, 21)
+	wh.add(21, 22)
+	wh.add(21, 23)
+	m["half-wheel24"] = wh
+	m["grid5x5"] = cartesian(pathB(5), pathB(5))
+	m["prism12+tail"] = func() *BGr {
+		g := cartesian(circulant(12, 1), completeB(2)).union(pathB(3))
+		g.add(0, 24)
+		return g
+	}()
+	return m
+}
+
+func lcgPerm(n int, seed uint64) []int {
+	p := make([]int, n)
+	for i := range p {
+		p[i] = i
+	}
+	x := seed
+	for i := n - 1; i > 0; i-- {
+		x = x*6364136223846793005 + 1442695040888963407
+		j := int((x >> 33) % uint64(i+1))
+		p[i], p[j] = p[j], p[i]
+	}
+	return p
+}
+
+func c01Big(c *Ctx) {
+	gs := bigGraphs()
+	names := make([]string, 0, len(gs))
+	for k := range gs {
+		names = append(names, k)
+	}
+	sortStrings(names)
+	for _, name := range names {
+		g := gs[name]
+		base, cl, what := bigCanon(g)
+		if cl != "" {
+			c.Fail(&Failure{Class: cl, What: name + ": " + what, Kind: "canon-big", Replay: bigCanonCase{Name: name, N: g.n, Edges: g.edgeList(), Perm: genSigma(g.n)}})
+			continue
+		}
+		var perms [][]int
+		relabellingsWithin(g.n, 1, func(p []int) { perms = append(perms, append([]int(nil), p...)) })
+		k := 12
+		if c.Thorough() {
+			k = 200
+		}
+		for s := 1; s <= k; s++ {
+			perms = append(perms, lcgPerm(g.n, uint64(s)*977))
+		}
+		edges := g.edgeList()
+		c.parFor(int64(len(perms)), 16, func(lo, hi int64) {
+			for i := lo; i < hi; i++ {
+				p := perms[i]
+				x, cl, _ := bigCanon(g.relabel(p))
+				c.Evals(1)
+				if cl != "" || x != base {
+					bc := bigCanonCase{Name: name, N: g.n, Edges: edges, Perm: p}
+					c.Check(func() *Failure { return checkBigInvariance(bc) })
+				}
+			}
+		})
+		c.Nontrivial(int64(len(perms)))
+		c.Count("big_"+name+"_relabellings", int64(len(perms)))
 	}
 }
 
